@@ -217,7 +217,7 @@ func verifyWriters(p *Prog, db *ContractDB, w *WritersSpec) *Unit {
 // verifyFunc checks a function against its contract.
 func verifyFunc(p *Prog, db *ContractDB, fc *FuncContract, prop string) (u *Unit) {
 	t0 := time.Now()
-	u = &Unit{Kind: "func", Name: shortKey(fc.Key), Props: fc.Props, Pos: fc.File}
+	u = &Unit{Kind: "func", Name: shortKey(fc.Key), Props: fc.Props, Pos: fc.File, fn: fc.Fn}
 	x := newExec(p, db)
 	x.prop = prop
 	x.mode = "func"
